@@ -76,6 +76,17 @@ func OracleC01(run *common.Run, id string, res *Result) int {
 		return fails
 	}
 	reach := g.Reach(res.Root2)
+	if c.Mode == "x" || c.Mode == "X" {
+		// ExtendedCopy: the graphs of all roots above the node (ancestors without predecessors)
+		reach = map[int]bool{}
+		for _, n := range g.Nodes {
+			if !n.Foreign() && len(g.Preds(n.ID)) == 0 && g.Reach(n.ID)[res.Root2] {
+				for k := range g.Reach(n.ID) {
+					reach[k] = true
+				}
+			}
+		}
+	}
 	var missing, bad []int
 	for i := range reach {
 		if !res.Present[i] {
@@ -114,7 +125,7 @@ func OracleC01(run *common.Run, id string, res *Result) int {
 	if len(bad) > 0 {
 		fail("bytes-differ", fmt.Sprintf("nodes %v are present with different bytes", bad))
 	}
-	if c.Mode != "g" {
+	if c.Mode != "g" && c.Mode != "x" {
 		want := g.Nodes[res.Root2].Desc
 		got := res.Returned
 		if got.MediaType != want.MediaType || got.Digest != want.Digest || got.Size != want.Size {
@@ -290,7 +301,7 @@ func OracleC04(run *common.Run, id string, res *Result) int {
 
 // Budget of one harness run.
 type Budget struct {
-	Main, Contention, Twin, CbFail, Mount, Remote, RootPresent int
+	Main, Contention, Twin, CbFail, Mount, Remote, RootPresent, Extended int
 	Sched, SchedReps                      int // graphs run under testing/synctest with the PRNG-controlled scheduler, extra schedules per graph
 	Small                                 bool // small-scope enumeration (graphs <= 3 nodes, sampled 4-node graphs) x roots x closed subsets
 	Reps                           int // extra schedules (latency seeds) per generated case
@@ -351,7 +362,7 @@ func Drive(run *common.Run, prop string, b Budget) {
 		if c.FindSucc {
 			run.Count("FindSuccessors set")
 		}
-		if c.Mode != "g" && res.Root2 >= 0 && inSet(c.D0, res.Root2) {
+		if (c.Mode == "t" || c.Mode == "r") && res.Root2 >= 0 && inSet(c.D0, res.Root2) {
 			hook := "set"
 			if !c.CbIsSet("skip") {
 				hook = "nil"
@@ -376,6 +387,12 @@ func Drive(run *common.Run, prop string, b Budget) {
 		run.Extra["max_src_inflight_seen"] = maxInt(run.Extra["max_src_inflight_seen"], res.SrcMax)
 		run.Extra["max_dst_inflight_seen"] = maxInt(run.Extra["max_dst_inflight_seen"], res.DstMax)
 		if res.Hang {
+			oracle(run, id, res)
+			return
+		}
+		if c.Mode == "x" || c.Mode == "X" {
+			run.Count("extended-copy (oracle only)")
+			run.Case(id, "0 0 x 0 - - - - rp="+c.Stream, "UNJUDGED")
 			oracle(run, id, res)
 			return
 		}
@@ -443,6 +460,7 @@ func Drive(run *common.Run, prop string, b Budget) {
 	stream("contention", b.Contention)
 	stream("cbfail", b.CbFail)
 	stream("rootpresent", b.RootPresent)
+	stream("extended", b.Extended)
 	stream("mount", b.Mount)
 	stream("remote", b.Remote)
 	stream("twin", b.Twin)
